@@ -1,0 +1,47 @@
+//go:build verif
+
+// Package vhook provides named instrumentation points for external runtime
+// verification. With the "verif" build tag, a handler registered for a point is
+// called whenever execution passes it.
+package vhook
+
+import "sync"
+
+// Enabled reports whether instrumentation points are compiled in.
+const Enabled = true
+
+// Handler is called when execution passes an instrumentation point.
+type Handler func(point, subject string)
+
+var handlers sync.Map // point -> Handler
+
+// Set registers the handler for a point, replacing any previous one.
+func Set(point string, h Handler) {
+	if h == nil {
+		handlers.Delete(point)
+		return
+	}
+	handlers.Store(point, h)
+}
+
+// Clear removes all handlers.
+func Clear() {
+	handlers.Range(func(k, _ any) bool {
+		handlers.Delete(k)
+		return true
+	})
+}
+
+// At marks an instrumentation point.
+func At(point string) {
+	if h, ok := handlers.Load(point); ok {
+		h.(Handler)(point, "") //nolint:forcetypeassert
+	}
+}
+
+// AtS marks an instrumentation point with a subject (e.g. a module or key name).
+func AtS(point, subject string) {
+	if h, ok := handlers.Load(point); ok {
+		h.(Handler)(point, subject) //nolint:forcetypeassert
+	}
+}
